@@ -345,6 +345,16 @@ func c01(c *fw.Ctx) {
 				o.text, _, _ = qrPayload(rng, qrref.Byte, maxLen)
 				nUnits = maxLen
 				if rng.Intn(5) == 0 {
+					// a long plain text whose only non-ASCII characters come after 1 to 2.5 KB: which
+					// character set an undesignated byte segment is in is a property of ALL its bytes
+					pre := 1000 + rng.Intn(1500)
+					tail := []string{"é", "€5", "日本", "ß→∞"}[rng.Intn(4)]
+					o.text = "a" + fromAlphabet(rng, "abcdefghijklmnopqrstuvwxyz ,.;0123456789", pre-1) + tail
+					o.version, o.mask = 0, -1
+					o.level = qrref.L
+					nUnits = len(o.text)
+					class = "utf8-nohint-late-non-ascii"
+				} else if rng.Intn(5) == 0 {
 					// ASCII text that is ALMOST alphanumeric-mode material: characters of the 45-set
 					// plus one or two ASCII characters just outside it (comma, quotes, brackets, ...):
 					// byte mode, and every character comes back as itself
@@ -451,7 +461,7 @@ func c01(c *fw.Ctx) {
 	c.Floor("matrix_path_ok", 2500)
 	c.Floor("image_path_ok", 2500)
 	c.Floor("image_path_through_go_image_types", 1000)
-	for _, cl := range []string{"digits", "alphanumeric", "latin1-all-bytes", "utf8-nohint", "utf8-nohint-leading-feff", "ascii-almost-45-set", "kanji", "boundary-numeric", "boundary-alphanumeric", "boundary-byte", "boundary-kanji"} {
+	for _, cl := range []string{"digits", "alphanumeric", "latin1-all-bytes", "utf8-nohint", "utf8-nohint-leading-feff", "ascii-almost-45-set", "utf8-nohint-late-non-ascii", "kanji", "boundary-numeric", "boundary-alphanumeric", "boundary-byte", "boundary-kanji"} {
 		c.Floor("class_"+cl, 50)
 	}
 	for v := 1; v <= 40; v++ {
